@@ -22,7 +22,7 @@ def fail(node, why):
     raise Unsupported(f"line {getattr(node, 'lineno', '?')}: {why}: {ast.dump(node)[:220]}")
 
 COQ_TY = {"nat": "nat", "optnat": "(option nat)", "bool": "bool", "space": "space", "spacelist": "(list space)", "natlist": "(list nat)",
-          "key": "N", "unit": "unit", "pn": "bool"}
+          "key": "BinNums.N", "unit": "unit", "pn": "bool"}
 DFLT = {"nat": "0", "optnat": "(@None nat)", "bool": "false", "space": "(@nil (option bool))", "spacelist": "(@nil space)",
         "natlist": "(@nil nat)", "key": "0%N", "pn": "false"}
 
@@ -41,7 +41,7 @@ FUNCS = [
          locs={}, loopvars={}, alias=["node"]),
     dict(name="node_is_minimal", args=[("node_id", "nat")], ret="bool", locs={"is_leaf": "bool"}, loopvars={}, alias=[]),
     dict(name="__len__", args=[], ret="nat", locs={}, loopvars={}, alias=[]),
-    dict(name="root", args=[], ret="nat", locs={}, loopvars={}, alias=[], decorators=["staticmethod"], no_self_use=True),
+    dict(name="root", args=[], ret="nat", locs={}, loopvars={}, alias=[]),
 ]
 METHODS = {f["name"]: f for f in FUNCS}
 EXC = {"RuntimeError": "ErrMotifLimit", "KeyError": "ErrKey", "AssertionError": "ErrAssert"}
@@ -306,7 +306,7 @@ class Fn:
 
     # ---------- statements ----------
     def st_tuple(self):
-        return "tt" if not self.state else ("(" + ", ".join(self.state) + ")" if len(self.state) > 1 else self.state[0])
+        return "Datatypes.tt" if not self.state else ("(" + ", ".join(self.state) + ")" if len(self.state) > 1 else self.state[0])
     def st_ty(self):
         tys = [COQ_TY[self.env[v]] for v in self.state]
         return "unit" if not tys else ("(" + " * ".join(tys) + ")" if len(tys) > 1 else tys[0])
@@ -330,15 +330,21 @@ class Fn:
         m = METHODS[c.func.attr]
         if c.func.attr not in self.defined and c.func.attr != self.spec["name"]: fail(c, "call of a method that is translated later")
         if len(c.args) != len(m["args"]): fail(c, "method arity")
-        args = []
-        for a, (_, ty) in zip(c.args, m["args"]):
+        args, binds = [], []
+        for j, (a, (_, ty)) in enumerate(zip(c.args, m["args"])):
             t = self.expr(a, want=ty)
             if t[1]: fail(c, "raising argument")
             if t[2] == ty: args.append(t[0])
             elif t[2] == "nat" and ty == "optnat": args.append(f"(Some {t[0]})")
-            elif t[2] == "none" and ty == "optnat": args.append("None")
+            elif t[2] in ("none", "optnat") and ty == "optnat" and t[0] == "None": args.append("(@None nat)")
+            elif t[2] == "optnat" and ty == "nat":
+                # None passed where the callee's parameter is an int: treated as a run-time error at the call (PyLibCore.v)
+                binds.append((f"a{j}_", t[0])); args.append(f"a{j}_")
             else: fail(c, f"argument type {t[2]} for {ty}")
-        return f"(py_{m['name'].strip('_')} fuel N cfg pnc w_ {' '.join(args)})".replace("  ", " "), m
+        term = f"(py_{m['name'].strip('_')} fuel N cfg pnc w_ {' '.join(args)})".replace("  ", " ")
+        for v, t in reversed(binds):
+            term = f"(match {t} with Some {v} => {term} | None => CBad w_ end)"
+        return term, m
 
     def is_debug_block(self, s):
         return isinstance(s, ast.If) and is_config(s.test, "debug") and not s.orelse and \
@@ -357,7 +363,7 @@ class Fn:
         if isinstance(s, ast.Return):
             if s.value is None:
                 if self.spec["ret"] != "unit": fail(s, "bare return in a function with a result")
-                return "(CRet w_ tt)"
+                return "(CRet w_ Datatypes.tt)"
             t, r, ty = self.expr(s.value)
             if ty == "optnat" and self.spec["ret"] == "nat": r, ty = True, "nat"        # returning None where an int is promised
             if ty != self.spec["ret"]: fail(s, f"return type {ty}")
@@ -406,7 +412,8 @@ class Fn:
                     else: fail(s, "node field")
                     k = self.block(rest)
                     inner = self.guard(f"(w_upd w_ i_ {setter('v_')})", False, "w_", k)
-                    inner = self.guard(v[0], v[1], "v_", inner)
+                    if f not in NONE_FIELDS:
+                        inner = self.guard(v[0], v[1], "v_", inner)
                     return self.guard(nid, nr, "i_", inner)
                 fail(s, "item assignment")
             if not isinstance(tgt, ast.Name): fail(s, "assignment target")
@@ -433,7 +440,7 @@ class Fn:
                 if ty != "pn" or nid is None: fail(s, "pn local")
                 self.pn_of[name] = nid[0]
             if ty == "nat" and lty == "optnat": t = f"(omap Some {t})" if r else f"(Some {t})"
-            elif ty == "none" and lty == "optnat": t = "None"
+            elif ty in ("none", "optnat") and lty == "optnat" and t == "None": t = "(@None nat)"
             elif ty != lty: fail(s, f"type of assignment: {ty} into {lty}")
             return self.guard(t, r, name, self.block(rest))
         if isinstance(s, ast.Expr) and isinstance(s.value, ast.Call):
@@ -555,11 +562,11 @@ def translate():
         sig = " ".join(f"({x} : {COQ_TY[t]})" for x, t in spec["args"])
         init = "".join(f"let {v} := {DFLT[spec['locs'][v]]} in " for v in fn.state)
         cname = "py_" + name.strip("_")
-        parts.append(f"(* {SRC}: def {name}({', '.join(want_args)}), line {node.lineno} *)")
+        parts.append(f"(* {SRC}: def {name}({', '.join(want_args)}) *)")
         ret = f"cflow {COQ_TY[spec['ret']]} unit"
         # the state tuple of the body is not part of the result type: close the block
         closed = (f"match ({body} : {fn.flow_ty()}) with CRet w_ r_ => CRet w_ r_ | CRaise w_ e_ => CRaise w_ e_ | CBad w_ => CBad w_ "
-                  f"| CFuel w_ => CFuel w_ | CNext w_ _ => CNext w_ tt end")
+                  f"| CFuel w_ => CFuel w_ | CNext w_ _ => CNext w_ Datatypes.tt end")
         if spec.get("recursive"):
             parts.append(f"Fixpoint {cname} (fuel : nat) (N : net) (cfg : config) (pnc : nat -> bool) (w_ : pyst) {sig} {{struct fuel}} : {ret} :=")
             parts.append("  match fuel with\n  | O => CFuel w_\n  | S fuel =>")
